@@ -527,6 +527,9 @@ def gen_instance(r: random.Random, doc: dict, s: dict, depth=0, all_optional=Non
     s = resolve(doc, s)
     if s.get("nullable") and r.random() < 0.2:
         return None
+    if "default" in s and isinstance(s["default"], (str, int, float, bool)) and r.random() < 0.4:
+        # a document that spells out the value the schema names as the default (round 5, C03-7: `omit_if_default` loses the key)
+        return s["default"]
     for key in ("oneOf", "anyOf"):
         if key in s:
             return gen_instance(r, doc, r.choice(s[key]), depth + 1)
